@@ -97,7 +97,8 @@ def source_text(f):
         if d == 'each':
             t.append("@each zq%d_%d, { 1 2 3 }\n@endeach\n@db @string { \"\" }" % (ident, j))
             continue
-        t.append('@%s "%s"' % (d, name))
+        # either case of the directive (chosen from the file's identity, so that the text is a function of the tree)
+        t.append('@%s "%s"' % (d.upper() if (ident + j) % 3 == 0 else d, name))
         t.append("@db $fe")
         t.append(".a%d_%d: @dw 0 - ( .f%d - .f%d )" % (ident, j, ident, ident))
     return "\n".join(t) + "\n"
@@ -221,9 +222,10 @@ def run(ck):
                 os.makedirs(os.path.dirname(full), exist_ok=True)
                 with open(full, "wb") as f:
                     f.write(content.encode() if isinstance(content, str) else content)
-            args = [az, "z80", c["root"]]
+            # every CPU's copy of the option handling; -I as given by a user: relative to the directory the command runs in
+            args = [az, ("z80", "sm83", "6502")[n % 3], c["root"]]
             for p in c["paths"]:
-                args += ["-I", base + p]
+                args += ["-I", (os.path.relpath(base + p, base + "/w") if n % 2 else base + p)]
             pr = subprocess.run(args, cwd=base + "/w", stdout=subprocess.PIPE, stderr=subprocess.PIPE, timeout=60)
             got = ("OK " + pr.stdout.hex()) if pr.returncode == 0 else ("DIAG" if pr.returncode == 1 else "CRASH rc=%d" % pr.returncode)
             ck.evaluations += 1
